@@ -23,8 +23,99 @@ def system(kind, threads):
     return aotools.CovarianceMatrix(3, masks, 4.0, [4.0 / len(masks[0])] * 3, H, [[10, 0], [-5, 8], [3, -12]], [5e-7, 6e-7, 5.5e-7], 2, numpy.array([0., 8000.]), [0.2, 0.4], [25., 15.], threads)
 
 
+def system3(threads, n_wfs=3):
+    """three layers (float32 accumulation over >= 3 terms is order dependent), unequal sub-aperture counts, NGS + LGS"""
+    rng = numpy.random.default_rng(9)
+    masks = [(rng.random((5, 5)) > 0.35).astype(float), aotools.circle(2.5, 5), aotools.circle(2, 5), (rng.random((5, 5)) > 0.5).astype(float)][:n_wfs]
+    H = [0, 90000., 0, 20000.][:n_wfs]
+    pos = [[10, 0], [-5, 8], [3, -12], [0, 7]][:n_wfs]
+    return aotools.CovarianceMatrix(n_wfs, masks, 4.0, [0.8] * n_wfs, H, pos, [5e-7, 6e-7, 5.5e-7, 7e-7][:n_wfs], 3, numpy.array([0., 4000., 11000.]), [0.2, 0.4, 0.3], [25., 15., 30.], threads)
+
+
+class _Result:
+    def __init__(self, v): self.v = v
+    def get(self, timeout=None): return self.v
+    def wait(self, timeout=None): pass
+    def ready(self): return True
+    def successful(self): return True
+
+
+def fake_pool(mode):
+    """an in-process stand-in that honours the documented contract of multiprocessing.Pool: map / imap / starmap return results in
+    input order; imap_unordered may deliver them in ANY order (here: a fixed permutation chosen by `mode`)"""
+    def permute(xs):
+        xs = list(xs)
+        if mode == "reverse":
+            return xs[::-1]
+        if mode == "rotate":
+            return xs[1:] + xs[:1]
+        if mode == "evenodd":
+            return xs[1::2] + xs[0::2]
+        return xs
+
+    class FakePool:
+        def __init__(self, processes=None, *a, **k): self.processes = processes
+        def map(self, f, it, chunksize=None): return [f(x) for x in it]
+        def imap(self, f, it, chunksize=1): return iter([f(x) for x in it])
+        def imap_unordered(self, f, it, chunksize=1): return iter(permute([f(x) for x in it]))
+        def starmap(self, f, it, chunksize=None): return [f(*x) for x in it]
+        def map_async(self, f, it, chunksize=None, callback=None, error_callback=None):
+            r = [f(x) for x in it]
+            if callback: callback(r)
+            return _Result(r)
+        def starmap_async(self, f, it, chunksize=None, callback=None, error_callback=None):
+            r = [f(*x) for x in it]
+            if callback: callback(r)
+            return _Result(r)
+        def apply(self, f, args=(), kwds={}): return f(*args, **kwds)
+        def apply_async(self, f, args=(), kwds={}, callback=None, error_callback=None):
+            r = f(*args, **kwds)
+            if callback: callback(r)
+            return _Result(r)
+        def close(self): pass
+        def join(self): pass
+        def terminate(self): pass
+        def __enter__(self): return self
+        def __exit__(self, *a): return False
+    return FakePool
+
+
+def chk_schedules(inp):
+    """schedule exploration under the Pool contract: every delivery order the contract allows must give the single-process bits"""
+    import types
+    from aotools.turbulence import slopecovariance as SC
+    real_mp = SC.multiprocessing
+    try:
+        for n_wfs in (2, 3, 4):
+            ref = system3(1, n_wfs).make_covariance_matrix().copy()
+            for mode in ("inorder", "reverse", "rotate", "evenodd"):
+                shim = types.SimpleNamespace(**{k: getattr(real_mp, k) for k in dir(real_mp) if not k.startswith("__")})
+                shim.Pool = fake_pool(mode)
+                shim.get_context = lambda *a, **k: shim
+                SC.multiprocessing = shim
+                for threads in (2, 3, 4, 5):
+                    M = system3(threads, n_wfs).make_covariance_matrix()
+                    if M.shape != ref.shape or not numpy.array_equal(M, ref):
+                        return bad("%d sensors, 3 layers, %d workers, results delivered in '%s' order (allowed by the Pool contract for unordered delivery; in-order for map): matrix is not bit-identical to the single-process one"
+                                   % (n_wfs, threads, mode), int((M != ref).sum()) if M.shape == ref.shape else list(M.shape), 0)
+    finally:
+        SC.multiprocessing = real_mp
+
+
 def chk_builds(inp):
     kinds = [inp["kind"]] if inp and "kind" in inp else ["equal", "unequal-lgs", "ngs-offaxis"]
+    if not (inp and inp.get("no_schedules")):
+        r = chk_schedules(inp)
+        if r:
+            return r
+        # real pools, worker counts that do not divide the number of sensor pairs
+        for n_wfs, ts in ((2, (2,)), (3, (4, 5)), (4, (3,))):
+            ref3 = system3(1, n_wfs).make_covariance_matrix().copy()
+            for t in ts:
+                M = system3(t, n_wfs).make_covariance_matrix()
+                if M.shape != ref3.shape or not numpy.array_equal(M, ref3):
+                    return bad("%d sensors (%d pairs), 3 layers, %d workers: matrix is not bit-identical to the single-process one" % (n_wfs, n_wfs * (n_wfs + 1) // 2, t),
+                               int((M != ref3).sum()) if M.shape == ref3.shape else list(M.shape), 0)
     for kind in kinds:
         ref = system(kind, 1).make_covariance_matrix().copy()
         for seq in ([1, 1], [2, 2], [1, 2, 1], [3, 1, 1, 2]):
@@ -37,6 +128,6 @@ def chk_builds(inp):
                                int((M != ref).sum()) if M.shape == ref.shape else list(M.shape), 0)
 
 
-CLAUSES = {"builds": (chk_builds, lambda t, s: [{"kind": k} for k in ("equal", "unequal-lgs", "ngs-offaxis")]), "assembly": (chk_builds, lambda t, s: [{"kind": "unequal-lgs"}])}
+CLAUSES = {"builds": (chk_builds, lambda t, s: [{"kind": "equal"}] + [{"kind": k, "no_schedules": True} for k in ("unequal-lgs", "ngs-offaxis")]), "assembly": (chk_builds, lambda t, s: [{"kind": "unequal-lgs"}])}
 if __name__ == "__main__":
     main(CLAUSES)
